@@ -46,6 +46,8 @@ def do_import(src):
             if not os.path.isfile(os.path.join(vd, "patch.diff")):
                 continue
             dst = os.path.join(SEEDED, f"{m.group(1)}-{v}")
+            if os.path.exists(os.path.join(dst, "meta.json")):
+                continue  # already imported and evaluated (some patches were rebased onto later fixes of /repo: see REBASED.txt)
             os.makedirs(dst, exist_ok=True)
             for f in ("patch.diff", "demo.py", "notes.md"):
                 if os.path.exists(os.path.join(vd, f)):
